@@ -51,11 +51,61 @@ theorem getJoinSequence_shape (t : JT) (n : Nat) (s : List Item) (m : Nat)
           subst e2
           simp [pairs] at h
 
+/-- every leaf operand satisfies `P` -/
+def leavesAll (P : Operand → Prop) : JT → Prop
+  | .leaf o => P o
+  | .join l r => leavesAll P l ∧ leavesAll P r
+  | .bad => True
+
+theorem getJoinSequence_all (P : Operand → Prop) (t : JT) (n : Nat) (s : List Item) (m : Nat)
+    (h : getJoinSequence t n = .ok (s, m)) (ht : leavesAll P t) :
+    ∀ i o, Item.op i o ∈ s → P o := by
+  induction t generalizing n s m with
+  | leaf o =>
+    simp [getJoinSequence] at h
+    intro i o' hm
+    rw [← h.1] at hm
+    simp at hm
+    rw [hm.2]; exact ht
+  | bad => simp [getJoinSequence] at h
+  | join l r ihl ihr =>
+    unfold getJoinSequence at h
+    cases hl : getJoinSequence l n with
+    | error e => simp [hl] at h
+    | ok p1 =>
+      obtain ⟨s1, n1⟩ := p1
+      cases hr : getJoinSequence r n1 with
+      | error e => simp [hl, hr] at h
+      | ok p2 =>
+        obtain ⟨s2, n2⟩ := p2
+        simp only [hl, hr] at h
+        split at h
+        · rename_i x
+          simp at h
+          intro i o hm
+          rw [← h.1] at hm
+          simp only [List.mem_append, List.mem_cons, List.mem_nil_iff, or_false] at hm
+          rcases hm with hm | hm | hm
+          · exact ihl n s1 n1 hl ht.1 i o hm
+          · exact ihr n1 [x] n2 hr ht.2 i o (by simp [hm])
+          · cases hm
+        · simp at h
+
+theorem swapModelFirst_mem (s : List Item) (x : Item) (h : x ∈ swapModelFirst s) : x ∈ s := by
+  unfold swapModelFirst at h
+  split at h
+  · simp only [List.mem_cons, List.mem_nil_iff, or_false] at h ⊢
+    rcases h with h | h | h
+    · exact Or.inr (Or.inl h)
+    · exact Or.inl h
+    · exact Or.inr (Or.inr h)
+  · exact h
+
 theorem swapModelFirst_shape (i : Nat) (o : Operand) (rest : List (Nat × Operand)) :
     ∃ i' o' rest', swapModelFirst (.op i o :: pairs rest) = .op i' o' :: pairs rest' := by
   cases o with
   | table c d p => exact ⟨i, .table c d p, rest, by cases rest <;> simp [swapModelFirst]⟩
-  | subselect a b r => exact ⟨i, .subselect a b r, rest, by cases rest <;> simp [swapModelFirst]⟩
+  | subselect a f => exact ⟨i, .subselect a f, rest, by cases rest <;> simp [swapModelFirst]⟩
   | predictor ts ps =>
     cases rest with
     | nil => exact ⟨i, .predictor ts ps, [], by simp [swapModelFirst, pairs]⟩
@@ -99,33 +149,43 @@ theorem addFilterSteps_stack_length (fixed : Bool) (dc : List Nat) (st : St) (ac
       rw [ih]
       exact addPlanStep_stack_length ..
 
-/-- an operand either raises a planning / not-implemented error or pushes exactly one stack entry -/
-theorem stepItem_op_stack (fixed : Bool) (st : St) (i : Nat) (o : Operand) :
+/-- sub-select planners of the operand never end with an internal error -/
+def OperandNoInt : Operand → Prop
+  | .subselect _ f => NoInternal f
+  | _ => True
+
+/-- an operand either raises a user-level error or pushes exactly one stack entry -/
+theorem stepItem_op_stack (fixed : Bool) (st : St) (i : Nat) (o : Operand) (ho : OperandNoInt o) :
     (∃ st', stepItem fixed st (.op i o) = .ok st' ∧ st'.stack.length = st.stack.length + 1) ∨
-    (∃ m, stepItem fixed st (.op i o) = .error (.planning m)) ∨
-    (∃ m, stepItem fixed st (.op i o) = .error (.notImpl m)) := by
+    (∃ e, stepItem fixed st (.op i o) = .error e ∧ IsUserErr e) := by
   cases o with
   | table c dc pre =>
     left
     refine ⟨_, rfl, ?_⟩
     simp only [processTable, List.length_cons]
     rw [addPlanStep_stack_length, addFilterSteps_stack_length]
-  | subselect al b r =>
-    cases al with
-    | false => right; left; exact ⟨_, rfl⟩
-    | true =>
-      left
-      simp only [stepItem, processSubselect, if_true]
-      refine ⟨_, rfl, ?_⟩
-      simp only [List.length_cons]
-      rw [addPlanStep_stack_length]
+  | subselect al f =>
+    simp only [stepItem, processSubselect]
+    have hf := ho st.plan
+    cases hs : f st.plan with
+    | error e => right; rw [hs] at hf; exact ⟨e, rfl, hf⟩
+    | ok r =>
+      obtain ⟨plan1, x⟩ := r
+      cases al with
+      | false => right; exact ⟨_, rfl, trivial⟩
+      | true =>
+        left
+        simp only [if_true]
+        refine ⟨_, rfl, ?_⟩
+        simp only [List.length_cons]
+        rw [addPlanStep_stack_length]
   | predictor ts ps =>
     simp only [stepItem, processPredictor]
     cases hs : st.stack with
-    | nil => right; right; exact ⟨_, rfl⟩
+    | nil => right; exact ⟨_, rfl, trivial⟩
     | cons d rest =>
       cases ts with
-      | true => right; right; exact ⟨_, rfl⟩
+      | true => right; exact ⟨_, rfl, trivial⟩
       | false =>
         left
         refine ⟨_, rfl, ?_⟩
@@ -147,13 +207,8 @@ theorem stepItem_jn_stack (fixed : Bool) (st : St) (h : 2 ≤ st.stack.length) :
       simp only [List.length_cons]
       rw [addPlanStep_stack_length]
 
-def IsUserErr : Err → Prop
-  | .planning _ => True
-  | .notImpl _ => True
-  | .internal _ => False
-
 theorem run_pairs_stack (fixed : Bool) (rest : List (Nat × Operand)) (st : St)
-    (h : st.stack.length = 1) :
+    (hno : ∀ x ∈ rest, OperandNoInt x.2) (h : st.stack.length = 1) :
     (∃ st', run fixed (pairs rest) st = .ok st' ∧ st'.stack.length = 1) ∨
     (∃ e, run fixed (pairs rest) st = .error e ∧ IsUserErr e) := by
   induction rest generalizing st with
@@ -161,61 +216,77 @@ theorem run_pairs_stack (fixed : Bool) (rest : List (Nat × Operand)) (st : St)
   | cons x xs ih =>
     obtain ⟨i, o⟩ := x
     simp only [pairs, run]
-    rcases stepItem_op_stack fixed st i o with ⟨st1, h1, hl1⟩ | ⟨m, h1⟩ | ⟨m, h1⟩
+    rcases stepItem_op_stack fixed st i o (hno (i, o) (List.mem_cons_self ..)) with ⟨st1, h1, hl1⟩ | ⟨e, h1, hu⟩
     · obtain ⟨st2, h2, hl2⟩ := stepItem_jn_stack fixed st1 (by omega)
       simp only [h1, h2]
-      exact ih st2 (by omega)
-    · right; exact ⟨.planning m, by simp [h1], trivial⟩
-    · right; exact ⟨.notImpl m, by simp [h1], trivial⟩
+      exact ih st2 (fun y hy => hno y (List.mem_cons_of_mem _ hy)) (by omega)
+    · right; exact ⟨e, by simp [h1], hu⟩
+
+theorem pairs_mem (rest : List (Nat × Operand)) (i : Nat) (o : Operand) (h : (i, o) ∈ rest) :
+    Item.op i o ∈ pairs rest := by
+  induction rest with
+  | nil => cases h
+  | cons y ys ih =>
+    obtain ⟨j, o'⟩ := y
+    simp only [pairs, List.mem_cons]
+    cases h with
+    | head => exact Or.inl rfl
+    | tail _ h' => exact Or.inr (Or.inr (ih h'))
+
+theorem getJoinSequence_error_user (t : JT) (n : Nat) (e : Err) (hs : getJoinSequence t n = .error e) :
+    IsUserErr e := by
+  induction t generalizing n e with
+  | leaf o => simp [getJoinSequence] at hs
+  | bad => simp [getJoinSequence] at hs; subst hs; trivial
+  | join l r ihl ihr =>
+    unfold getJoinSequence at hs
+    cases hl : getJoinSequence l n with
+    | error e1 => simp [hl] at hs; subst hs; exact ihl _ _ hl
+    | ok p1 =>
+      obtain ⟨s1, n1⟩ := p1
+      cases hr : getJoinSequence r n1 with
+      | error e2 => simp [hl, hr] at hs; subst hs; exact ihr _ _ hr
+      | ok p2 =>
+        obtain ⟨s2, n2⟩ := p2
+        simp only [hl, hr] at hs
+        split at hs
+        · simp at hs
+        · simp at hs; subst hs; trivial
 
 /-- **T9.3** the modelled join planner ends with a plan or with `PlanningException` /
-`NotImplementedError`; in particular the stack pops of the `Join` branch and the final
-`step_stack.pop()` never fail.  Holds for both the pinned and the repaired `add_plan_step`
-and for every input (including the open-partition fall-through). -/
-theorem planJoinTables_error_class (fixed : Bool) (t : JT) (plan : List Step) :
+`NotImplementedError` (given that the planners of its sub-select operands do); in particular the
+stack pops of the `Join` branch and the final `step_stack.pop()` never fail.  Holds for both variants
+of `add_plan_step` and for every input (including the open-partition fall-through). -/
+theorem planJoinTables_error_class (fixed : Bool) (t : JT) (plan : List Step)
+    (hno : leavesAll OperandNoInt t) :
     (∃ r, planJoinTables fixed t plan = .ok r) ∨
     (∃ e, planJoinTables fixed t plan = .error e ∧ IsUserErr e) := by
   unfold planJoinTables
   cases hs : getJoinSequence t 0 with
-  | error e =>
-    right
-    refine ⟨e, rfl, ?_⟩
-    -- errors of get_join_sequence are user errors
-    clear plan
-    generalize 0 = n at hs
-    induction t generalizing n e with
-    | leaf o => simp [getJoinSequence] at hs
-    | bad => simp [getJoinSequence] at hs; subst hs; trivial
-    | join l r ihl ihr =>
-      unfold getJoinSequence at hs
-      cases hl : getJoinSequence l n with
-      | error e1 => simp [hl] at hs; subst hs; exact ihl _ _ hl
-      | ok p1 =>
-        obtain ⟨s1, n1⟩ := p1
-        cases hr : getJoinSequence r n1 with
-        | error e2 => simp [hl, hr] at hs; subst hs; exact ihr _ _ hr
-        | ok p2 =>
-          obtain ⟨s2, n2⟩ := p2
-          simp only [hl, hr] at hs
-          split at hs
-          · simp at hs
-          · simp at hs; subst hs; trivial
+  | error e => right; exact ⟨e, rfl, getJoinSequence_error_user t 0 e hs⟩
   | ok p =>
     obtain ⟨s, m⟩ := p
+    have hall := getJoinSequence_all OperandNoInt t 0 s m hs hno
     obtain ⟨i, o, rest, e⟩ := getJoinSequence_shape t 0 s m hs
     subst e
     obtain ⟨i', o', rest', e'⟩ := swapModelFirst_shape i o rest
+    have hall' : ∀ j q, Item.op j q ∈ Item.op i' o' :: pairs rest' → OperandNoInt q := by
+      intro j q hm
+      rw [← e'] at hm
+      exact hall j q (swapModelFirst_mem _ _ hm)
     simp only [e', run]
-    rcases stepItem_op_stack fixed ⟨plan, [], none, []⟩ i' o' with ⟨st1, h1, hl1⟩ | ⟨m, h1⟩ | ⟨m, h1⟩
+    rcases stepItem_op_stack fixed ⟨plan, [], none, []⟩ i' o' (hall' i' o' (List.mem_cons_self ..))
+      with ⟨st1, h1, hl1⟩ | ⟨e1, h1, hu⟩
     · simp only [h1]
-      rcases run_pairs_stack fixed rest' st1 (by simpa using hl1) with ⟨st2, h2, hl2⟩ | ⟨e2, h2, hu⟩
+      rcases run_pairs_stack fixed rest' st1
+          (fun x hx => hall' x.1 x.2 (List.mem_cons_of_mem _ (pairs_mem rest' x.1 x.2 hx)))
+          (by simpa using hl1) with ⟨st2, h2, hl2⟩ | ⟨e2, h2, hu⟩
       · simp only [h2]
         have := closePartition_stack_length st2
         cases hc : (closePartition st2).stack with
         | nil => rw [hc] at this; simp at this; omega
         | cons x xs => left; exact ⟨_, rfl⟩
       · right; exact ⟨e2, by simp [h2], hu⟩
-    · right; exact ⟨.planning m, by simp [h1], trivial⟩
-    · right; exact ⟨.notImpl m, by simp [h1], trivial⟩
+    · right; exact ⟨e1, by simp [h1], hu⟩
 
 end MindsVerif.Plan
